@@ -164,7 +164,9 @@ var messageCheck = &core.Check{Name: "c16/message", Quick: 3000, Thorough: 25000
 	// normalised hash of an external-in message
 	norm := plain.Hash(true)
 	canonical := tlbref.Message{Info: tlbref.MsgInfo{Kind: 1, Src: tlbref.Addr{Kind: 0}, Dest: m.Info.Dest, ImportFee: new(big.Int)}, Body: m.Body, BodyInRef: true}
-	exact := m.Info.Dest.Kind == 2 && m.Info.Dest.Anycast == nil
+	// standard destinations without anycast and variable-length destinations are kept as they are by the
+	// canonical form (anycast of a standard destination is dropped by the library: compared by class only)
+	exact := (m.Info.Dest.Kind == 2 && m.Info.Dest.Anycast == nil) || m.Info.Dest.Kind == 3
 	if exact {
 		cc, _ := msgCell(canonical)
 		if !bytes.Equal(norm[:], cc.ReprHash()) {
@@ -203,7 +205,12 @@ var messageCheck = &core.Check{Name: "c16/message", Quick: 3000, Thorough: 25000
 	// a different destination or body must change it
 	d := m
 	d.Info.Dest.Hash[c.Choose("flipbyte", 32)] ^= 1 << uint(c.Intn("flipbit", 8))
-	if m.Info.Dest.Kind == 2 {
+	if m.Info.Dest.Kind == 3 && len(m.Info.Dest.Ext) > 0 {
+		d.Info.Dest.Ext = m.Info.Dest.Ext.Clone()
+		i := c.Choose("flipvar", len(d.Info.Dest.Ext))
+		d.Info.Dest.Ext[i] = !d.Info.Dest.Ext[i]
+	}
+	if m.Info.Dest.Kind == 2 || (m.Info.Dest.Kind == 3 && len(m.Info.Dest.Ext) > 0) {
 		if dc, fits := msgCell(d); fits {
 			dp, _, _, err := decodeAllWays(dc, sharedDecoder)
 			if err != nil {
@@ -381,6 +388,23 @@ var realCheck = &core.Check{Name: "c16/real", Fn: func(c *core.Ctx) error {
 			}
 			if err := tlb.Unmarshal(cc[0], &reused); err != nil {
 				return fmt.Errorf("re-decoding a transaction from its SourceBoc: %v", err)
+			}
+			if i%2 == 1 {
+				// the same cell object decoded once more (its read cursors are wherever the first decode left
+				// them): hash and source BOC must describe that cell all the same
+				var second tlb.Transaction
+				if err := tlb.NewDecoder().Unmarshal(cc[0], &second); err != nil {
+					return fmt.Errorf("decoding the same transaction cell a second time: %v", err)
+				}
+				sb, err := second.SourceBoc()
+				if err != nil {
+					return err
+				}
+				rr2, err := ref.ParseBOC(sb)
+				wantH := txs[i].Hash()
+				if err != nil || len(rr2) != 1 || !bytes.Equal(rr2[0].ReprHash(), wantH[:]) || second.Hash() != wantH {
+					return fmt.Errorf("a transaction cell decoded a second time: Hash %x, SourceBoc parses to %v (%v), the cell hashes to %x", second.Hash(), rr2, err, wantH)
+				}
 			}
 			want := txs[i].Hash()
 			if reused.Hash() != want {
